@@ -1,1 +1,691 @@
-From Oras Require Import Base.Prelude Model.OciCrash.
+(* C10 -- proofs about the crash model (Model/OciCrash.v, Model/OciCrashSpec.v). *)
+From Oras Require Import Base.Prelude Model.OciCrash Model.OciCrashSpec.
+
+(* ---------- paths ---------- *)
+Lemma fpath_eqb_spec p q : fpath_eqb p q = true <-> p = q.
+Proof.
+  destruct p, q; simpl; split; intro E; try discriminate; try reflexivity.
+  - apply Nat.eqb_eq in E. congruence.
+  - injection E as ->. apply Nat.eqb_refl.
+  - apply N.eqb_eq in E. congruence.
+  - injection E as ->. apply N.eqb_refl.
+  - apply andb_true_iff in E as [A B]. apply N.eqb_eq in A. apply Nat.eqb_eq in B. congruence.
+  - injection E as -> ->. rewrite N.eqb_refl, Nat.eqb_refl. reflexivity.
+Qed.
+
+Lemma fpath_eqb_refl p : fpath_eqb p p = true.
+Proof. now apply fpath_eqb_spec. Qed.
+
+Lemma fpath_eqb_neq p q : p <> q -> fpath_eqb p q = false.
+Proof.
+  intro Hn. destruct (fpath_eqb p q) eqn:E; [|reflexivity].
+  apply fpath_eqb_spec in E. contradiction.
+Qed.
+
+Lemma upd_same f p v : upd f p v p = v.
+Proof. unfold upd. now rewrite fpath_eqb_refl. Qed.
+
+Lemma upd_other f p v q : q <> p -> upd f p v q = f q.
+Proof. intro Hn. unfold upd. now rewrite (fpath_eqb_neq q p Hn). Qed.
+
+(* ---------- which paths a step can change ---------- *)
+Definition touches (m : mstep) (p : fpath) : Prop :=
+  match m with
+  | Mkdir _ | Close _ => False
+  | Create q | OpenTrunc q | Write q _ | Chmod q | Unlink q => p = q
+  | Rename a b => p = a \/ p = b
+  end.
+
+Lemma apply1_frame fs m p : ~ touches m p -> files (apply1 fs m) p = files fs p.
+Proof.
+  destruct m; simpl; intro Hn; try reflexivity.
+  - destruct (files fs p0); simpl; [reflexivity|]. now apply upd_other.
+  - now apply upd_other.
+  - destruct (files fs p0); simpl; [|reflexivity]. now apply upd_other.
+  - destruct (files fs p0); simpl; [|reflexivity]. now apply upd_other.
+  - destruct (files fs p0); simpl; [|reflexivity].
+    rewrite upd_other by tauto. now rewrite upd_other by tauto.
+  - now apply upd_other.
+Qed.
+
+Lemma apply_app a c fs : apply (a ++ c) fs = apply c (apply a fs).
+Proof. unfold apply. apply fold_left_app. Qed.
+
+Lemma apply_cons m ms fs : apply (m :: ms) fs = apply ms (apply1 fs m).
+Proof. reflexivity. Qed.
+
+Lemma apply_frame ms : forall fs p,
+  (forall m, In m ms -> ~ touches m p) -> files (apply ms fs) p = files fs p.
+Proof.
+  induction ms as [|m ms IH]; intros fs p Hn; [reflexivity|].
+  rewrite apply_cons, IH.
+  - apply apply1_frame. apply Hn. now left.
+  - intros m' Hin. apply Hn. now right.
+Qed.
+
+Lemma In_firstn {A} (x : A) k l : In x (firstn k l) -> In x l.
+Proof.
+  revert l; induction k as [|k IH]; intros [|a l]; simpl; try tauto.
+  intros [->|Hin]; [now left|right; now apply IH].
+Qed.
+
+(* cutting a list that is a concatenation *)
+Lemma firstn_app_cases {A} k (a c : list A) :
+  (firstn k (a ++ c) = firstn k a /\ (k <= length a)%nat) \/
+  (exists k', firstn k (a ++ c) = a ++ firstn k' c).
+Proof.
+  destruct (Nat.le_gt_cases k (length a)) as [Hle|Hgt].
+  - left. split; [|exact Hle]. rewrite firstn_app.
+    replace (k - length a)%nat with 0%nat by lia. simpl. now rewrite app_nil_r.
+  - right. exists (k - length a)%nat. rewrite firstn_app.
+    rewrite firstn_all2 by lia. reflexivity.
+Qed.
+
+(* ---------- the two sequences that fill a temporary file ---------- *)
+Lemma apply_writes t : forall cont fs pre ro,
+  files fs t = Some (mkFile pre ro) ->
+  files (apply (map (fun x => Write t (AChunk x)) cont) fs) t
+    = Some (mkFile (pre ++ map AChunk cont) ro).
+Proof.
+  induction cont as [|x cont IH]; intros fs pre ro Hf; cbn [map].
+  - cbn. now rewrite app_nil_r.
+  - rewrite apply_cons. cbn [apply1]. rewrite Hf.
+    erewrite IH; [|cbn [files]; apply upd_same]. cbn [fcontent fro].
+    now rewrite <- app_assoc.
+Qed.
+
+(* ======================================================================= *)
+Section Crash.
+Variable H : list N -> N.
+Variable shuffle : nat -> list entry -> list entry.
+(* Go's map iteration order: saveIndex writes the entries in some order *)
+Hypothesis shuffle_In : forall c l e, In e (shuffle c l) <-> In e l.
+
+Notation idx_steps := (index_steps shuffle false).
+Notation steps := (op_steps H shuffle false).
+Notation runop := (run_op H shuffle false).
+
+(* ---------- Recoverable only looks at oci-layout, index.json and blobs/ ---------- *)
+Definition nt_eq (a c : FS) : Prop := forall p, is_temp p = false -> files a p = files c p.
+
+Lemma nt_eq_refl a : nt_eq a a.
+Proof. intros p _. reflexivity. Qed.
+
+Lemma read_index_nt a c : nt_eq a c -> read_index a = read_index c.
+Proof. intro E. unfold read_index. now rewrite (E FIndex eq_refl). Qed.
+
+Lemma has_nt a c p : nt_eq a c -> is_temp p = false -> has a p -> has c p.
+Proof. intros E Hp Hh. unfold has in *. now rewrite <- (E p Hp). Qed.
+
+Definition Good (fs : FS) : Prop := layout_ok fs /\ blob_ok H fs /\ index_ok fs.
+
+Lemma good_nt a c : nt_eq a c -> Good a -> Good c.
+Proof.
+  intros E (L & B & I). split; [|split].
+  - destruct L as (f & Hf & Hc). exists f. split; [|exact Hc]. now rewrite <- (E FLayout eq_refl).
+  - intros d f Hf. apply (B d f). now rewrite (E (FBlob d) eq_refl).
+  - destruct I as (l & Hl & He). exists l. split.
+    + now rewrite <- (read_index_nt a c E).
+    + intros e Hin. apply (has_nt a c (FBlob (fst e)) E eq_refl). now apply He.
+Qed.
+
+Lemma rec_nt fs0 a c fs1 : nt_eq a c -> Recoverable H fs0 a fs1 -> Recoverable H fs0 c fs1.
+Proof.
+  intros E (L & B & I & R & P1 & P2).
+  destruct (good_nt a c E (conj L (conj B I))) as (L' & B' & I').
+  assert (E' : nt_eq c a) by (intros p Hp; symmetry; now apply E).
+  repeat split; try assumption.
+  - rewrite <- (read_index_nt a c E). exact R.
+  - intros d H0 H1. apply (has_nt a c (FBlob d) E eq_refl). now apply P1.
+  - intros d Hc. apply P2. now apply (has_nt c a (FBlob d) E' eq_refl).
+Qed.
+
+Lemma rec_start fs0 fs1 : Good fs0 -> Recoverable H fs0 fs0 fs1.
+Proof. intros (L & B & I). repeat split; auto. Qed.
+
+Lemma rec_end fs0 fs1 : Good fs1 -> Recoverable H fs0 fs1 fs1.
+Proof. intros (L & B & I). repeat split; auto. Qed.
+
+(* ---------- invariant of quiescent states ---------- *)
+Record Inv (s : st) : Prop := {
+  inv_layout : layout_ok (sfs s);
+  inv_blob : blob_ok H (sfs s);
+  inv_tags : forall r n, In (r, n) (stags s) -> has (sfs s) (FBlob n);
+  inv_digs : forall n, In n (sdigs s) -> has (sfs s) (FBlob n);
+  inv_temp : forall p, is_temp p = true -> files (sfs s) p = None;
+  inv_index : exists l, read_index (sfs s) = Some l /\
+                        forall e, In e l <-> In e (save (stags s) (sdigs s))
+}.
+
+Lemma save_In tags digs e :
+  In e (save tags digs) ->
+  (exists r, In (r, fst e) tags) \/ In (fst e) digs.
+Proof.
+  unfold save. intro Hin. apply in_app_or in Hin as [Hin|Hin].
+  - apply in_map_iff in Hin as ([r n] & <- & Hin). left. exists r. exact Hin.
+  - apply in_map_iff in Hin as (d & <- & Hin). apply filter_In in Hin as [Hin _]. now right.
+Qed.
+
+Lemma save_exist fs tags digs :
+  (forall r n, In (r, n) tags -> has fs (FBlob n)) ->
+  (forall n, In n digs -> has fs (FBlob n)) ->
+  forall e, In e (save tags digs) -> has fs (FBlob (fst e)).
+Proof.
+  intros Ht Hd e Hin. apply save_In in Hin as [(r & Hr)|Hn]; [now apply (Ht r)|now apply Hd].
+Qed.
+
+Lemma inv_good s : Inv s -> Good (sfs s).
+Proof.
+  intros [L B T D _ (l & Hl & Hs)]. split; [exact L|split; [exact B|]].
+  exists l. split; [exact Hl|]. intros e Hin. apply Hs in Hin.
+  now apply (save_exist (sfs s) (stags s) (sdigs s)).
+Qed.
+
+(* ---------- writing index.json: temp file, then rename ---------- *)
+Section IndexWrite.
+Variables (c : nat) (tags : list (N * N)) (digs : list N) (fs : FS).
+Let it := FIndexTmp c.
+Let l := shuffle c (save tags digs).
+Hypothesis Hnone : files fs it = None.
+
+Lemma idx_steps_eq :
+  idx_steps c tags digs = [Create it; Write it (AIndex l); Close it; Rename it FIndex].
+Proof. reflexivity. Qed.
+
+Lemma idx_final :
+  let fs' := apply (idx_steps c tags digs) fs in
+  files fs' FIndex = Some (mkFile [AIndex l] false) /\ files fs' it = None /\
+  forall p, p <> FIndex -> p <> it -> files fs' p = files fs p.
+Proof.
+  rewrite idx_steps_eq. unfold apply. cbn [fold_left apply1]. rewrite Hnone.
+  cbn [files]. rewrite upd_same. cbn [files fcontent fro app]. rewrite upd_same.
+  cbn [files]. split; [|split].
+  - rewrite upd_other by discriminate. apply upd_same.
+  - apply upd_same.
+  - intros p H1 H2. now rewrite !upd_other by assumption.
+Qed.
+
+Lemma idx_prefix k :
+  let fsk := apply (firstn k (idx_steps c tags digs)) fs in
+  (k < 4)%nat -> forall p, is_temp p = false -> files fsk p = files fs p.
+Proof.
+  intros fsk Hk p Hp. unfold fsk. apply apply_frame. intros m Hin.
+  rewrite idx_steps_eq in Hin.
+  assert (Hm : In m [Create it; Write it (AIndex l); Close it]).
+  { destruct k as [|[|[|[|k]]]]; try lia; cbn in Hin; cbn; tauto. }
+  cbn in Hm. intro Ht.
+  destruct Hm as [<-|[<-|[<-|[]]]]; cbn in Ht; try contradiction; subst p; discriminate.
+Qed.
+
+Lemma idx_prefix_all k : (4 <= k)%nat ->
+  firstn k (idx_steps c tags digs) = idx_steps c tags digs.
+Proof. intro Hk. apply firstn_all2. rewrite idx_steps_eq. simpl. lia. Qed.
+End IndexWrite.
+
+
+(* ---------- small facts ---------- *)
+Lemma exists_file_true fs p : exists_file fs p = true -> has fs p.
+Proof. unfold exists_file, has. destruct (files fs p); [discriminate|discriminate]. Qed.
+
+Lemma exists_file_false fs p : exists_file fs p = false -> files fs p = None.
+Proof. unfold exists_file. destruct (files fs p); [discriminate|reflexivity]. Qed.
+
+Lemma has_eq a c p : files a p = files c p -> has c p -> has a p.
+Proof. unfold has. now intros ->. Qed.
+
+Lemma filter_all_true {A} (f : A -> bool) l : (forall x, In x l -> f x = true) -> filter f l = l.
+Proof.
+  induction l as [|a l IH]; intro Hf; [reflexivity|]. simpl.
+  rewrite (Hf a (or_introl eq_refl)). f_equal. apply IH. intros x Hx. apply Hf. now right.
+Qed.
+
+Lemma existsb_false {A} (f : A -> bool) l : existsb f l = false -> forall x, In x l -> f x = false.
+Proof.
+  induction l as [|a l IH]; simpl; intros E x Hx; [contradiction|].
+  apply orb_false_iff in E as [E1 E2]. destruct Hx as [<-|Hx]; [exact E1|now apply IH].
+Qed.
+
+Lemma inv_ctr fs tags digs c c' : Inv (mkSt fs tags digs c) -> Inv (mkSt fs tags digs c').
+Proof. intros [L B T D Tm I]. constructor; assumption. Qed.
+
+Lemma prefix_temp_only fs0 fs1 (A : list mstep) base :
+  (forall m, In m A -> forall p, touches m p -> is_temp p = true) ->
+  Recoverable H fs0 base fs1 ->
+  forall k, Recoverable H fs0 (apply (firstn k A) base) fs1.
+Proof.
+  intros HA HR k. apply (rec_nt fs0 base); [|exact HR].
+  intros p Hp. symmetry. apply apply_frame. intros m Hin Ht.
+  apply In_firstn in Hin. rewrite (HA m Hin p Ht) in Hp. discriminate.
+Qed.
+
+(* ---------- operations that only rewrite index.json ---------- *)
+Lemma idx_only_safe s tags' digs' :
+  Inv s ->
+  (forall r n, In (r, n) tags' -> has (sfs s) (FBlob n)) ->
+  (forall n, In n digs' -> has (sfs s) (FBlob n)) ->
+  let ms := idx_steps (sctr s) tags' digs' in
+  let fs1 := apply ms (sfs s) in
+  Inv (mkSt fs1 tags' digs' (S (sctr s))) /\
+  (forall p, p <> FIndex -> is_temp p = false -> files fs1 p = files (sfs s) p) /\
+  forall k, Recoverable H (sfs s) (apply (firstn k ms) (sfs s)) fs1.
+Proof.
+  intros I Ht Hd ms fs1.
+  pose proof (inv_temp s I (FIndexTmp (sctr s)) eq_refl) as Hnone.
+  destruct (idx_final (sctr s) tags' digs' (sfs s) Hnone) as (F1 & F2 & F3).
+  fold ms in F1, F2, F3. fold fs1 in F1, F2, F3.
+  assert (Fnt : forall p, p <> FIndex -> is_temp p = false -> files fs1 p = files (sfs s) p).
+  { intros p Hp Hn. apply F3; [exact Hp|]. intros ->. discriminate. }
+  assert (I1 : Inv (mkSt fs1 tags' digs' (S (sctr s)))).
+  { destruct I as [L B T D Tm Ix]. constructor; cbn [sfs stags sdigs].
+    - destruct L as (f & Hf & Hc). exists f. split; [|exact Hc]. rewrite Fnt; [exact Hf|discriminate|reflexivity].
+    - intros d f Hf. apply (B d f). rewrite <- Fnt; [exact Hf|discriminate|reflexivity].
+    - intros r n Hin. apply (has_eq fs1 (sfs s)); [apply Fnt; [discriminate|reflexivity]|]. now apply (Ht r).
+    - intros n Hin. apply (has_eq fs1 (sfs s)); [apply Fnt; [discriminate|reflexivity]|]. now apply Hd.
+    - intros p Hp. destruct (fpath_eqb p (FIndexTmp (sctr s))) eqn:E.
+      + apply fpath_eqb_spec in E. subst p. exact F2.
+      + rewrite F3; [now apply Tm| |].
+        * intros ->. discriminate.
+        * intros ->. rewrite fpath_eqb_refl in E. discriminate.
+    - exists (shuffle (sctr s) (save tags' digs')). split.
+      + unfold read_index. rewrite F1. reflexivity.
+      + intro e. apply shuffle_In. }
+  split; [exact I1|split; [exact Fnt|]].
+  intro k. destruct (Nat.lt_ge_cases k 4) as [Hk|Hk].
+  - apply (rec_nt (sfs s) (sfs s)); [|apply rec_start; now apply inv_good].
+    intros p Hp. symmetry. now apply (idx_prefix (sctr s) tags' digs' (sfs s) k Hk p Hp).
+  - unfold ms. rewrite idx_prefix_all by exact Hk. apply rec_end.
+    apply (inv_good _ I1).
+Qed.
+
+(* ---------- ingest: create the temp file, write, (chmod), close ---------- *)
+Definition ingest_pre (fs : FS) (t : fpath) (cont : list N) : list mstep :=
+  mkdirs fs ++ [Create t] ++ map (fun x => Write t (AChunk x)) cont.
+
+Lemma mkdirs_touch fs m p : In m (mkdirs fs) -> ~ touches m p.
+Proof.
+  unfold mkdirs. intro Hin. apply in_app_or in Hin.
+  destruct (dirs fs DAlg), (dirs fs DIngest); cbn in Hin;
+    destruct Hin as [Hin|Hin]; try contradiction;
+    destruct Hin as [<-|[]]; cbn; tauto.
+Qed.
+
+Lemma ingest_pre_touch fs t cont m p : In m (ingest_pre fs t cont) -> touches m p -> p = t.
+Proof.
+  unfold ingest_pre. intros Hin Ht. apply in_app_or in Hin as [Hin|Hin].
+  - exfalso. exact (mkdirs_touch fs m p Hin Ht).
+  - apply in_app_or in Hin as [[<-|[]]|Hin]; [exact Ht|].
+    apply in_map_iff in Hin as (x & <- & _). exact Ht.
+Qed.
+
+Lemma ingest_pre_content fs t cont :
+  files fs t = None ->
+  files (apply (ingest_pre fs t cont) fs) t = Some (mkFile (map AChunk cont) false).
+Proof.
+  intro Hn. unfold ingest_pre. rewrite !apply_app.
+  assert (H0 : files (apply (mkdirs fs) fs) t = None).
+  { rewrite apply_frame; [exact Hn|]. intros m Hin. now apply (mkdirs_touch fs). }
+  set (fa := apply (mkdirs fs) fs) in *.
+  assert (H1 : files (apply [Create t] fa) t = Some (mkFile [] false)).
+  { unfold apply. cbn [fold_left apply1]. rewrite H0. cbn [files]. apply upd_same. }
+  rewrite (apply_writes t cont _ [] false H1). reflexivity.
+Qed.
+
+(* a list whose steps only touch the temp file t *)
+Definition only_touch (A : list mstep) (t : fpath) : Prop :=
+  forall m, In m A -> forall p, touches m p -> p = t.
+
+Lemma only_touch_temp A t : only_touch A t -> is_temp t = true ->
+  forall m, In m A -> forall p, touches m p -> is_temp p = true.
+Proof. intros HA Ht m Hin p Hp. now rewrite (HA m Hin p Hp). Qed.
+
+Lemma only_touch_frame A t fs p : only_touch A t -> p <> t -> files (apply A fs) p = files fs p.
+Proof. intros HA Hp. apply apply_frame. intros m Hin Ht. apply Hp. exact (HA m Hin p Ht). Qed.
+
+Lemma only_touch_app A B t : only_touch A t -> only_touch B t -> only_touch (A ++ B) t.
+Proof. intros HA HB m Hin. apply in_app_or in Hin as [Hin|Hin]; [now apply HA|now apply HB]. Qed.
+
+(* ---------- Push whose content fails verification ---------- *)
+Lemma push_bad_safe s d cont :
+  Inv s ->
+  let t := FIngest d (sctr s) in
+  let ms := ingest_pre (sfs s) t cont ++ [Close t; Unlink t] in
+  let fs1 := apply ms (sfs s) in
+  Inv (mkSt fs1 (stags s) (sdigs s) (S (sctr s))) /\
+  forall k, Recoverable H (sfs s) (apply (firstn k ms) (sfs s)) fs1.
+Proof.
+  intros I t ms fs1.
+  assert (HT : only_touch ms t).
+  { apply only_touch_app; [intros m Hin p; now apply (ingest_pre_touch (sfs s) t cont)|].
+    intros m [<-|[<-|[]]] p Hp; cbn in Hp; [contradiction|exact Hp]. }
+  assert (Ft : files fs1 t = None).
+  { unfold fs1, ms. rewrite apply_app. unfold apply at 1. cbn [fold_left apply1 files]. apply upd_same. }
+  assert (Fo : forall p, files fs1 p = files (sfs s) p).
+  { intro p. destruct (fpath_eqb p t) eqn:E.
+    - apply fpath_eqb_spec in E. subst p. rewrite Ft. symmetry. now apply (inv_temp s I).
+    - apply (only_touch_frame ms t); [exact HT|]. intros ->. rewrite fpath_eqb_refl in E. discriminate. }
+  assert (I1 : Inv (mkSt fs1 (stags s) (sdigs s) (S (sctr s)))).
+  { destruct I as [L B T D Tm Ix]. constructor; cbn [sfs stags sdigs].
+    - destruct L as (f & Hf & Hc). exists f. now rewrite Fo.
+    - intros d' f Hf. apply (B d' f). now rewrite <- Fo.
+    - intros r n Hin. apply (has_eq fs1 (sfs s)); [apply Fo|now apply (T r)].
+    - intros n Hin. apply (has_eq fs1 (sfs s)); [apply Fo|now apply D].
+    - intros p Hp. rewrite Fo. now apply Tm.
+    - destruct Ix as (l & Hl & He). exists l. split; [|exact He].
+      unfold read_index. rewrite Fo. exact Hl. }
+  split; [exact I1|]. intro k.
+  apply prefix_temp_only; [now apply (only_touch_temp ms t)|].
+  apply rec_start. now apply inv_good.
+Qed.
+
+Lemma dig_add_In d digs n : In n (dig_add d digs) -> n = d \/ In n digs.
+Proof. unfold dig_add. destruct (memN d digs); simpl; intuition. Qed.
+
+(* ---------- Push of verified content (and, for a manifest, the index update) ---------- *)
+Lemma push_good_safe s d cont (man : bool) :
+  Inv s -> files (sfs s) (FBlob d) = None -> H cont = d ->
+  let c := sctr s in
+  let t := FIngest d c in
+  let digs' := if man then dig_add d (sdigs s) else sdigs s in
+  let A := ingest_pre (sfs s) t cont ++ [Chmod t; Close t] in
+  let IX := if man then idx_steps c (stags s) digs' else [] in
+  let ms := A ++ Rename t (FBlob d) :: IX in
+  let fs1 := apply ms (sfs s) in
+  Inv (mkSt fs1 (stags s) digs' (S c)) /\
+  forall k, Recoverable H (sfs s) (apply (firstn k ms) (sfs s)) fs1.
+Proof.
+  intros I Hnew HH c t digs' A IX ms fs1.
+  set (fs0 := sfs s) in *.
+  set (X := mkFile (map AChunk cont) true).
+  assert (Htmp : files fs0 t = None) by (now apply (inv_temp s I)).
+  assert (HT : only_touch A t).
+  { apply only_touch_app; [intros m Hin p; now apply (ingest_pre_touch fs0 t cont)|].
+    intros m [<-|[<-|[]]] p Hp; cbn in Hp; [exact Hp|contradiction]. }
+  set (fsA := apply A fs0).
+  assert (FAt : files fsA t = Some X).
+  { unfold fsA, A. rewrite apply_app. unfold apply at 1. cbn [fold_left apply1].
+    rewrite (ingest_pre_content fs0 t cont Htmp). cbn [files fcontent fro]. apply upd_same. }
+  set (fsB := apply1 fsA (Rename t (FBlob d))).
+  assert (FB : forall p, files fsB p = if fpath_eqb p (FBlob d) then Some X else files fs0 p).
+  { intro p. unfold fsB. cbn [apply1]. rewrite FAt. cbn [files].
+    destruct (fpath_eqb p t) eqn:Et.
+    - apply fpath_eqb_spec in Et. subst p. rewrite upd_same. cbn. now rewrite Htmp.
+    - assert (p <> t) by (intros ->; rewrite fpath_eqb_refl in Et; discriminate).
+      rewrite upd_other by assumption. unfold upd at 1.
+      destruct (fpath_eqb p (FBlob d)); [reflexivity|].
+      now apply (only_touch_frame A t). }
+  assert (FBb : forall d', files fsB (FBlob d') = if d' =? d then Some X else files fs0 (FBlob d')).
+  { intro d'. now rewrite FB. }
+  assert (IB : Inv (mkSt fsB (stags s) (sdigs s) c)).
+  { destruct I as [L B T D Tm Ix]. fold fs0 in L, B, T, D, Tm, Ix.
+    constructor; cbn [sfs stags sdigs].
+    - destruct L as (f & Hf & Hc). exists f. rewrite FB. cbn. now split.
+    - intros d' f. rewrite FBb. destruct (d' =? d) eqn:E.
+      + apply N.eqb_eq in E. subst d'. intro Hf. injection Hf as <-. exists cont. now split.
+      + apply B.
+    - intros r n Hin. unfold has. rewrite FBb. destruct (n =? d); [discriminate|]. now apply (T r).
+    - intros n Hin. unfold has. rewrite FBb. destruct (n =? d); [discriminate|]. now apply D.
+    - intros p Hp. rewrite FB. destruct p; try discriminate; cbn; now apply Tm.
+    - destruct Ix as (l & Hl & He). exists l. split; [|exact He].
+      unfold read_index. rewrite FB. cbn. exact Hl. }
+  assert (Hsplit : forall k,
+     (exists k', apply (firstn k ms) fs0 = apply (firstn k' A) fs0) \/
+     (exists k', apply (firstn k ms) fs0 = apply (firstn k' IX) fsB)).
+  { intro k. unfold ms. destruct (firstn_app_cases k A (Rename t (FBlob d) :: IX)) as [[E _]|(k' & E)].
+    - left. exists k. now rewrite E.
+    - destruct k' as [|k'].
+      + left. exists (length A). rewrite E. cbn [firstn]. rewrite app_nil_r. now rewrite firstn_all.
+      + right. exists k'. rewrite E. cbn [firstn]. rewrite apply_app, apply_cons. reflexivity. }
+  assert (F1 : fs1 = apply IX fsB).
+  { unfold fs1, ms. rewrite apply_app, apply_cons. reflexivity. }
+  assert (Hstart : forall k', Recoverable H fs0 (apply (firstn k' A) fs0) fs1).
+  { intro k'. apply prefix_temp_only; [now apply (only_touch_temp A t)|].
+    apply rec_start. now apply inv_good. }
+  destruct man.
+  - (* manifest: the index is rewritten after the blob is in place *)
+    assert (Hd' : forall n, In n digs' -> has fsB (FBlob n)).
+    { intros n Hin. apply dig_add_In in Hin as [->|Hin].
+      - unfold has. rewrite FBb, N.eqb_refl. discriminate.
+      - exact (inv_digs _ IB n Hin). }
+    destruct (idx_only_safe (mkSt fsB (stags s) (sdigs s) c) (stags s) digs' IB (inv_tags _ IB) Hd')
+      as (I1 & Fnt & _).
+    cbn [sfs sctr] in I1, Fnt. fold IX in I1, Fnt. rewrite <- F1 in I1, Fnt.
+    split; [exact I1|]. intro k.
+    destruct (Hsplit k) as [(k' & ->)|(k' & ->)]; [apply Hstart|].
+    destruct (Nat.lt_ge_cases k' 4) as [Hk|Hk].
+    + (* blob in place, index.json still the old one *)
+      apply (rec_nt fs0 fsB).
+      { intros p Hp. symmetry.
+        exact (idx_prefix c (stags s) digs' fsB k' Hk p Hp). }
+      destruct (inv_good _ IB) as (GL & GB & GI). cbn [sfs] in GL, GB, GI.
+      repeat split; try assumption.
+      * left. unfold read_index. rewrite FB. reflexivity.
+      * intros d' H0 _. unfold has. rewrite FBb. destruct (d' =? d); [discriminate|exact H0].
+      * intros d'. unfold has. rewrite FBb. destruct (d' =? d) eqn:E; [|now left].
+        intros _. right. apply N.eqb_eq in E. subst d'.
+        rewrite Fnt; [|discriminate|reflexivity]. rewrite FBb, N.eqb_refl. discriminate.
+    + unfold IX. rewrite idx_prefix_all by exact Hk. fold IX. rewrite <- F1.
+      apply rec_end. exact (inv_good _ I1).
+  - (* plain blob *)
+    assert (F1' : fs1 = fsB) by (rewrite F1; reflexivity).
+    assert (I1 : Inv (mkSt fs1 (stags s) (sdigs s) (S c))).
+    { rewrite F1'. exact (inv_ctr _ _ _ c (S c) IB). }
+    split; [exact I1|]. intro k.
+    destruct (Hsplit k) as [(k' & ->)|(k' & ->)]; [apply Hstart|].
+    unfold IX. rewrite firstn_nil. cbn [apply fold_left]. rewrite <- F1'.
+    apply rec_end. exact (inv_good _ I1).
+Qed.
+
+(* ---------- Delete: index first, then the blob ---------- *)
+Lemma unlink_inv fs tags digs c c' d :
+  Inv (mkSt fs tags digs c) ->
+  (forall r n, In (r, n) tags -> n <> d) -> (forall n, In n digs -> n <> d) ->
+  Inv (mkSt (apply1 fs (Unlink (FBlob d))) tags digs c').
+Proof.
+  intros [L B T D Tm Ix] Ht Hd. cbn [sfs stags sdigs] in *.
+  assert (FU : forall p, files (apply1 fs (Unlink (FBlob d))) p = upd (files fs) (FBlob d) None p)
+    by reflexivity.
+  constructor; cbn [sfs stags sdigs].
+  - destruct L as (f & Hf & Hc). exists f. rewrite FU, upd_other by discriminate. now split.
+  - intros d' f. rewrite FU. destruct (N.eq_dec d' d) as [->|Hn].
+    + rewrite upd_same. discriminate.
+    + rewrite upd_other by congruence. apply B.
+  - intros r n Hin. unfold has. rewrite FU, upd_other.
+    + now apply (T r).
+    + intro E. injection E as E. exact (Ht r n Hin E).
+  - intros n Hin. unfold has. rewrite FU, upd_other.
+    + now apply D.
+    + intro E. injection E as E. exact (Hd n Hin E).
+  - intros p Hp. rewrite FU, upd_other; [now apply Tm|]. intros ->. discriminate.
+  - destruct Ix as (l & Hl & He). exists l. split; [|exact He].
+    unfold read_index. rewrite FU, upd_other by discriminate. exact Hl.
+Qed.
+
+Lemma noop_safe s tags digs :
+  Inv s -> tags = stags s -> digs = sdigs s ->
+  Inv (mkSt (apply [] (sfs s)) tags digs (S (sctr s))) /\
+  forall k, Recoverable H (sfs s) (apply (firstn k []) (sfs s)) (apply [] (sfs s)).
+Proof.
+  intros I -> ->. split.
+  - destruct I as [L B T D Tm Ix]. constructor; assumption.
+  - intro k. rewrite firstn_nil. apply rec_start. now apply inv_good.
+Qed.
+
+Lemma delete_safe s d :
+  Inv s ->
+  let tags' := filter (fun e => negb (snd e =? d)) (stags s) in
+  let digs' := filter (fun x => negb (x =? d)) (sdigs s) in
+  let IX := if existsb (fun e => snd e =? d) (stags s) || memN d (sdigs s)
+            then idx_steps (sctr s) tags' digs' else [] in
+  let UN := if exists_file (sfs s) (FBlob d) then [Unlink (FBlob d)] else [] in
+  let ms := IX ++ UN in
+  let fs1 := apply ms (sfs s) in
+  Inv (mkSt fs1 tags' digs' (S (sctr s))) /\
+  forall k, Recoverable H (sfs s) (apply (firstn k ms) (sfs s)) fs1.
+Proof.
+  intros I tags' digs' IX UN ms fs1.
+  assert (Ht' : forall r n, In (r, n) tags' -> In (r, n) (stags s) /\ n <> d).
+  { intros r n Hin. apply filter_In in Hin as [Hin E]. split; [exact Hin|].
+    cbn in E. apply negb_true_iff in E. now apply N.eqb_neq in E. }
+  assert (Hd' : forall n, In n digs' -> In n (sdigs s) /\ n <> d).
+  { intros n Hin. apply filter_In in Hin as [Hin E]. split; [exact Hin|].
+    apply negb_true_iff in E. now apply N.eqb_neq in E. }
+  destruct (existsb (fun e => snd e =? d) (stags s) || memN d (sdigs s)) eqn:Eu.
+  - (* some reference names d: the index is rewritten first *)
+    destruct (idx_only_safe s tags' digs' I) as (IM & Fnt & RM).
+    { intros r n Hin. apply (inv_tags s I r). now apply Ht'. }
+    { intros n Hin. apply (inv_digs s I). now apply Hd'. }
+    fold IX in IM, Fnt, RM. set (fsM := apply IX (sfs s)) in *.
+    destruct (exists_file (sfs s) (FBlob d)) eqn:Ex.
+    + assert (F1 : fs1 = apply1 fsM (Unlink (FBlob d))).
+      { unfold fs1, ms, UN. now rewrite apply_app. }
+      assert (I1 : Inv (mkSt fs1 tags' digs' (S (sctr s)))).
+      { rewrite F1. apply (unlink_inv fsM tags' digs' (S (sctr s))); [exact IM| |].
+        - intros r n Hin. now apply (Ht' r).
+        - intros n Hin. now apply Hd'. }
+      split; [exact I1|].
+      assert (Mid : Recoverable H (sfs s) fsM fs1).
+      { destruct (inv_good _ IM) as (GL & GB & GI). cbn [sfs] in GL, GB, GI.
+        repeat split; try assumption.
+        - right. unfold read_index. rewrite F1. cbn [apply1 files].
+          now rewrite upd_other by discriminate.
+        - intros d' H0 _. apply (has_eq fsM (sfs s)); [|exact H0].
+          apply Fnt; [discriminate|reflexivity].
+        - intros d' Hh. left. apply (has_eq (sfs s) fsM); [|exact Hh].
+          symmetry. apply Fnt; [discriminate|reflexivity]. }
+      intro k. unfold ms.
+      destruct (firstn_app_cases k IX UN) as [[E _]|(k' & E)]; rewrite E.
+      * destruct (Nat.lt_ge_cases k 4) as [Hk|Hk].
+        -- apply (rec_nt (sfs s) (sfs s)); [|apply rec_start; now apply inv_good].
+           intros p Hp. symmetry. unfold IX.
+           exact (idx_prefix (sctr s) tags' digs' (sfs s) k Hk p Hp).
+        -- unfold IX. rewrite idx_prefix_all by exact Hk. exact Mid.
+      * rewrite apply_app. fold fsM. unfold UN. destruct k' as [|k'].
+        -- cbn [firstn apply fold_left]. exact Mid.
+        -- cbn [firstn]. rewrite firstn_nil. change (apply [Unlink (FBlob d)] fsM) with (apply1 fsM (Unlink (FBlob d))).
+           rewrite <- F1. apply rec_end. exact (inv_good _ I1).
+    + assert (F1 : fs1 = fsM).
+      { unfold fs1, ms, UN. now rewrite app_nil_r. }
+      rewrite F1. split; [exact IM|]. intro k. unfold ms, UN. rewrite app_nil_r. apply RM.
+  - (* nothing names d: only the blob file goes *)
+    apply orb_false_iff in Eu as [Eu1 Eu2].
+    assert (Et : tags' = stags s).
+    { apply filter_all_true. intros e Hin.
+      now rewrite (existsb_false _ _ Eu1 e Hin). }
+    assert (Ed : digs' = sdigs s).
+    { apply filter_all_true. intros x Hin. unfold memN in Eu2.
+      pose proof (existsb_false _ _ Eu2 x Hin) as E. rewrite N.eqb_sym in E. now rewrite E. }
+    destruct (exists_file (sfs s) (FBlob d)) eqn:Ex.
+    + assert (F1 : fs1 = apply1 (sfs s) (Unlink (FBlob d))) by reflexivity.
+      assert (I1 : Inv (mkSt fs1 tags' digs' (S (sctr s)))).
+      { rewrite F1, Et, Ed. apply (unlink_inv (sfs s) (stags s) (sdigs s) (sctr s)).
+        - destruct s; exact I.
+        - intros r n Hin. rewrite <- Et in Hin. now apply (Ht' r).
+        - intros n Hin. rewrite <- Ed in Hin. now apply Hd'. }
+      split; [exact I1|]. intro k. unfold ms, IX, UN. cbn [app]. destruct k as [|k].
+      * cbn [firstn apply fold_left]. apply rec_start. now apply inv_good.
+      * cbn [firstn]. rewrite firstn_nil. change (apply [Unlink (FBlob d)] (sfs s)) with fs1.
+        apply rec_end. exact (inv_good _ I1).
+    + apply (noop_safe s tags' digs' I Et Ed).
+Qed.
+
+(* ---------- every operation, every cut ---------- *)
+Lemma tag_set_In r d tags r' n :
+  In (r', n) (tag_set r d tags) -> (r', n) = (r, d) \/ In (r', n) tags.
+Proof.
+  unfold tag_set. intros [E|Hin]; [left; now symmetry|right].
+  now apply filter_In in Hin as [Hin _].
+Qed.
+
+Lemma op_safe s o :
+  Inv s ->
+  Inv (runop s o) /\
+  forall k, Recoverable H (sfs s) (crash_fs H shuffle false s o k) (sfs (runop s o)).
+Proof.
+  intro I. unfold run_op, crash_fs, op_steps. destruct o as [d cont man|d r|r|d|].
+  - (* Push *)
+    cbn [op_mem]. destruct (exists_file (sfs s) (FBlob d)) eqn:Ex.
+    + apply (noop_safe s _ _ I eq_refl eq_refl).
+    + apply exists_file_false in Ex. destruct (H cont =? d) eqn:EH; cbn [negb].
+      * apply N.eqb_eq in EH.
+        pose proof (push_good_safe s d cont man I Ex EH) as P. cbn zeta in P.
+        unfold ingest_pre in P. rewrite <- !app_assoc in P. cbn [app] in P.
+        destruct man; cbn [sfs]; exact P.
+      * pose proof (push_bad_safe s d cont I) as P. cbn zeta in P.
+        unfold ingest_pre in P. rewrite <- !app_assoc in P. cbn [app] in P.
+        destruct man; cbn [sfs]; exact P.
+  - (* Tag *)
+    cbn [op_mem]. destruct (exists_file (sfs s) (FBlob d)) eqn:Ex.
+    + apply exists_file_true in Ex.
+      destruct (idx_only_safe s (tag_set r d (stags s)) (dig_add d (sdigs s)) I) as (I1 & _ & R1).
+      * intros r' n Hin. apply tag_set_In in Hin as [E|Hin]; [injection E as -> ->; exact Ex|].
+        now apply (inv_tags s I r').
+      * intros n Hin. apply dig_add_In in Hin as [->|Hin]; [exact Ex|now apply (inv_digs s I)].
+      * split; [exact I1|exact R1].
+    + apply (noop_safe s _ _ I eq_refl eq_refl).
+  - (* Untag *)
+    cbn [op_mem]. destruct (tag_get r (stags s)) as [x|] eqn:Eg.
+    + destruct (idx_only_safe s (tag_del r (stags s)) (sdigs s) I) as (I1 & _ & R1).
+      * intros r' n Hin. unfold tag_del in Hin. apply filter_In in Hin as [Hin _].
+        now apply (inv_tags s I r').
+      * apply (inv_digs s I).
+      * split; [exact I1|exact R1].
+    + apply (noop_safe s _ _ I eq_refl eq_refl).
+  - (* Delete *)
+    cbn [op_mem]. exact (delete_safe s d I).
+  - (* SaveIndex *)
+    cbn [op_mem].
+    destruct (idx_only_safe s (stags s) (sdigs s) I (inv_tags s I) (inv_digs s I)) as (I1 & _ & R1).
+    split; [exact I1|exact R1].
+Qed.
+
+Lemma inv_init : Inv init.
+Proof.
+  constructor; cbn.
+  - eexists. split; reflexivity.
+  - intros d f Hf. discriminate.
+  - intros r n [].
+  - intros n [].
+  - intros p Hp. destruct p; try discriminate; reflexivity.
+  - exists []. split; [reflexivity|]. intro e. cbn. tauto.
+Qed.
+
+Lemma inv_run h : forall s, Inv s -> Inv (run H shuffle false h s).
+Proof.
+  induction h as [|o h IH]; intros s I; [exact I|].
+  cbn [run fold_left]. apply IH. now apply op_safe.
+Qed.
+
+Theorem crash_safe h o k :
+  let s := run H shuffle false h init in
+  Recoverable H (sfs s) (crash_fs H shuffle false s o k) (sfs (run_op H shuffle false s o)).
+Proof. intro s. apply op_safe. apply inv_run. apply inv_init. Qed.
+
+(* what the statement says in words, as corollaries *)
+Corollary crash_tags_before_or_after h o k :
+  let s := run H shuffle false h init in
+  let fsk := crash_fs H shuffle false s o k in
+  same_tags fsk (sfs s) \/ same_tags fsk (sfs (run_op H shuffle false s o)).
+Proof.
+  intros s fsk. destruct (crash_safe h o k) as (_ & _ & (l & Hl & _) & R & _).
+  fold s in Hl, R. fold fsk in Hl, R. destruct R as [R|R]; [left|right];
+    exists l, l; rewrite <- R; repeat split; auto.
+Qed.
+
+End Crash.
+
+(* ---------- the code before the repair: index.json written in place ---------- *)
+Lemma crash_unsafe_inplace (H : list N -> N) :
+  exists h o k,
+    let s := run H (fun _ l => l) true h init in
+    ~ Recoverable H (sfs s) (crash_fs H (fun _ l => l) true s o k)
+        (sfs (run_op H (fun _ l => l) true s o)).
+Proof.
+  exists [], SaveIndex, 1%nat. cbn zeta. intros (_ & _ & (l & Hl & _) & _).
+  cbn in Hl. discriminate.
+Qed.
+
+(* after the cut between open(O_TRUNC) and write, index.json is empty: a reader cannot parse it *)
+Lemma crash_inplace_index_unreadable (H : list N -> N) :
+  read_index (crash_fs H (fun _ l => l) true init SaveIndex 1) = None.
+Proof. reflexivity. Qed.
+
